@@ -337,6 +337,9 @@ func c11Seq(r *vrt.R, depth int) {
 				hh := fnv.New32a()
 				hh.Write([]byte(h[0] + h[1]))
 				mine = r.Mine(int(hh.Sum32() % 1024))
+				if !mine {
+					return // the whole subtree below a 2-op prefix belongs to one shard
+				}
 			} else {
 				mine = r.Shard == 0
 			}
@@ -450,20 +453,20 @@ func c11Scenarios() []schedrun.Scenario {
 	l := func(i int) c11Op { return c11Op{'l', i} }
 	return []schedrun.Scenario{
 		// two simultaneous logins colliding by UUID+name / name only / UUID only
-		c11Scenario("2logins-same-uuid-name-variant", off, nil, [][]c11Op{{L(0)}, {L(1)}}, 2, 3),
-		c11Scenario("2logins-same-name-other-uuid", off, nil, [][]c11Op{{L(0)}, {L(2)}}, 1, 2),
-		c11Scenario("2logins-same-uuid-other-name", on, nil, [][]c11Op{{L(0)}, {L(3)}}, 2, 3),
+		c11Scenario("2logins-same-uuid-name-variant", off, nil, [][]c11Op{{L(0)}, {L(1)}}, 2, 4),
+		c11Scenario("2logins-same-name-other-uuid", off, nil, [][]c11Op{{L(0)}, {L(2)}}, 1, 3),
+		c11Scenario("2logins-same-uuid-other-name", on, nil, [][]c11Op{{L(0)}, {L(3)}}, 2, 4),
 		// a duplicate is rejected / denied while the original leaves or a third player joins
-		c11Scenario("established-leaves-vs-duplicate-login", off, []int{0}, [][]c11Op{{X(0)}, {L(1)}}, 2, 3),
-		c11Scenario("duplicate-rejected-vs-name-collider-session", off, []int{0}, [][]c11Op{{L(1)}, {l(2)}}, 2, 3),
-		c11Scenario("login-logout-vs-login-logout", off, nil, [][]c11Op{{l(0)}, {l(1)}}, 2, 3),
-		c11Scenario("3logins", off, nil, [][]c11Op{{L(0)}, {L(1)}, {L(2)}}, 1, 2),
+		c11Scenario("established-leaves-vs-duplicate-login", off, []int{0}, [][]c11Op{{X(0)}, {L(1)}}, 2, 4),
+		c11Scenario("duplicate-rejected-vs-name-collider-session", off, []int{0}, [][]c11Op{{L(1)}, {l(2)}}, 2, 4),
+		c11Scenario("login-logout-vs-login-logout", off, nil, [][]c11Op{{l(0)}, {l(1)}}, 2, 4),
+		c11Scenario("3logins", off, nil, [][]c11Op{{L(0)}, {L(1)}, {L(2)}}, 1, 3),
 		// kick mode
-		c11Scenario("2logins-same-uuid", kick, nil, [][]c11Op{{L(0)}, {L(1)}}, 2, 3),
-		c11Scenario("established-vs-2-newcomers", kick, []int{0}, [][]c11Op{{L(1)}, {L(3)}}, 2, 3),
-		c11Scenario("established-leaves-vs-newcomer", kick, []int{0}, [][]c11Op{{X(0)}, {L(1)}}, 2, 3),
-		c11Scenario("denied-duplicate-vs-name-collider", kick, []int{0}, [][]c11Op{{D(1)}, {l(2)}}, 2, 3),
-		c11Scenario("name-replaced-then-leaves", kick, []int{0}, [][]c11Op{{l(2)}, {L(2)}}, 1, 2),
+		c11Scenario("2logins-same-uuid", kick, nil, [][]c11Op{{L(0)}, {L(1)}}, 2, 4),
+		c11Scenario("established-vs-2-newcomers", kick, []int{0}, [][]c11Op{{L(1)}, {L(3)}}, 2, 4),
+		c11Scenario("established-leaves-vs-newcomer", kick, []int{0}, [][]c11Op{{X(0)}, {L(1)}}, 2, 4),
+		c11Scenario("denied-duplicate-vs-name-collider", kick, []int{0}, [][]c11Op{{D(1)}, {l(2)}}, 2, 4),
+		c11Scenario("name-replaced-then-leaves", kick, []int{0}, [][]c11Op{{l(2)}, {L(2)}}, 1, 3),
 	}
 }
 
@@ -484,7 +487,7 @@ func TestVerif(t *testing.T) {
 			return
 		}
 		if r.Replay() == nil {
-			depth := 3
+			depth := 4
 			if r.Thorough() {
 				depth = 5
 			}
